@@ -47,3 +47,37 @@ Theorem readString_negative : forall h rest, lenN h = 2 -> (sx16 (unbe h) < 0)%Z
 Proof. rewrite readString_tie. exact negative_string_len. Qed.
 Theorem readTag_total : forall s, prog s (run_flat gen_readTag s).
 Proof. rewrite readTag_tie. exact rd_tag_prog. Qed.
+
+(* ---------- phase 4: the whole decoder over the generated pieces ---------- *)
+Theorem decoder_total_translated : forall f fuel s, (length s + 1 < fuel)%nat ->
+  prog s (run_flat (Decode f (gen_any fuel max_open)) s) /\
+  (forall t, prog s (run_flat (Decode f (gen_ty fuel max_open t)) s)) /\
+  prog s (run_flat (Decode f (gen_dyn fuel max_open)) s) /\
+  (forall dep id, prog s (run_flat (gen_rawRead fuel dep id) s)) /\
+  (forall dep fs cur, (length s + 1 + sdepth (SStruct fs) < fuel)%nat ->
+     prog s (run_flat (gen_st_struct dst (pred fuel) dep fs cur) s) /\ prog s (run_flat (gen_st_map (pred fuel) dep cur) s)).
+Proof.
+  intros f fuel s H. rewrite unmarshal_any_tie, unmarshal_ty_tie, dynbt_unmarshal_tie, rawRead_tie.
+  split; [|split; [|split; [|split]]].
+  - apply Decode_prog; auto with rb. intros. apply prog_prog0, dany_prog. lia.
+  - intros t. apply Decode_prog; auto with rb. intros. apply prog_prog0, dty_prog. lia.
+  - apply Decode_prog; auto with rb. intros. apply ddyn_prog. lia.
+  - intros. apply dskip_prog, H.
+  - intros dep fs cur L. destruct fuel as [|fu]; [lia|]. cbn [pred]. rewrite <- dst_struct_tie, <- dst_map_tie.
+    split; apply dst_prog; cbn [sdepth] in *; lia.
+Qed.
+
+Theorem decode_exact_translated : forall f name t rest fuel,
+  wf t -> nest_ok t -> name_ok name = true -> (length (payload t) < fuel)%nat ->
+  run_flat (Decode f (gen_any fuel max_open)) (doc f name t ++ rest) = FOk (root_name f name, value_of t) rest /\
+  run_flat (Decode f (gen_dyn fuel max_open)) (doc f name t ++ rest) = FOk (root_name f name, dyn_of t) rest /\
+  run_flat (gen_rawRead fuel max_open (tag_id t)) (payload t ++ rest) = FOk tt rest.
+Proof.
+  intros f name t rest fuel W Hn Hname Hf. rewrite unmarshal_any_tie, dynbt_unmarshal_tie, rawRead_tie. repeat split.
+  - apply Decode_doc; auto with rb. now apply dany_conforms.
+  - apply Decode_doc; auto with rb. now apply ddyn_conforms.
+  - now apply dskip_conforms.
+Qed.
+Theorem decoder_robust_translated : forall fuel dep,
+  (forall id, robust (gen_any fuel dep id)) /\ (forall t id, robust (gen_ty fuel dep t id)) /\ (forall id, robust (gen_dyn fuel dep id)).
+Proof. intros. rewrite unmarshal_any_tie, unmarshal_ty_tie, dynbt_unmarshal_tie. repeat split; intros; auto with rb. Qed.
